@@ -1,7 +1,61 @@
-TECHNIQUE = 'bounded symbolic execution of LLVM IR lowered to C: CBMC/SAT (cadical); bit-precise kernel + sequential history harness against a ghost array with lifetime counters'
-ASSUMPTIONS = ['probe']
-OUTSIDE = 'probe'
-INSTANCES = [
-    {'name': 'hist_default', 'src': 'history.cpp', 'engine': 'cbmc', 'defs': {'VF_TRAITS': 0, 'VF_OPS': 1}, 'unwind': 8,
-     'timeout': 900, 'bounds': 'probe'},
+TECHNIQUE = ('bounded symbolic execution of LLVM IR lowered to C: CBMC/SAT (cadical); bit-precise index kernel + '
+             'sequential operation harness against a ghost array with lifetime counters')
+ASSUMPTIONS = [
+    'detail::alignedMalloc/alignedFree are replaced by their contract (fresh, suitably aligned block of >= the requested '
+    'size, constant-size CBMC objects of 64 / 512 bytes; larger requests fail a check) -- the real functions are decided under C44; '
+    'their pointer->integer->pointer round trip turns every element access into a whole-object byte update in CBMC',
+    'size traits {kDefaultCapacity 2, kMaxVectorSize 32} supplied by specialising DefaultConcurrentVectorSizeTraits<Elem> '
+    '(first bucket = 1 element, 6-entry buffer table); reserve() arguments <= 8 so that no bucket beyond the table is requested',
+    'operations are called within their documented preconditions (positions inside [begin, end], pop_back on a non-empty vector)',
+    'kernel: bucketAndSubIndex reads only firstBucketShift_/firstBucketLen_, which are set to a symbolic shift s and 1 << s',
 ]
+OUTSIDE = ('histories of more than one symbolic operation after the concrete prefix for most operation kinds (see NOTES.md: CBMC symbolic '
+           'execution of the template code does not finish for 2 symbolic operations of all kinds within 400 s); sizes above VF_MAXN; '
+           'the fast (pointer-tagging) iterator instantiations beyond the instances listed; element types other than the '
+           'lifetime-tracked int payload; memory reuse by the allocator')
+
+# operation kinds (bit numbers) of history.cpp
+PUSH = 0x7                     # push_back(const&), push_back(&&), emplace_back
+GROW = 0x78 | (1 << 25)        # grow_by(n,v), grow_by(n), grow_by_generator, grow_to_at_least, grow_by(first,last)
+INS1 = 0x180                   # insert(pos, const&), insert(pos, &&)
+INS2 = 0x600                   # insert(pos, n, v), insert(pos, first, last)
+ERASE1 = 0x800                 # erase(pos)
+ERASE2 = 0x1000                # erase(first, last)
+SHRINK = 0x3E000               # resize, reserve, pop_back, clear, shrink_to_fit
+WHOLE = 0x1FC0000              # copy=, move=, swap, assign(n,v), assign(first,last), copy ctor, move ctor
+GROUPS = [('push', PUSH), ('grow', GROW), ('ins1', INS1), ('ins2', INS2), ('erase1', ERASE1), ('erase2', ERASE2),
+          ('shrink', SHRINK), ('whole', WHOLE)]
+TRAITS = {'A': 1, 'D': 4, 'def': 0, 'B': 2, 'C': 3}
+TRAIT_TEXT = {'A': 'TestTraitsA (heap buffer table, kHalfBufferAhead, compact iterator)',
+              'D': 'inline buffer table, kHalfBufferAhead, compact iterator',
+              'def': 'DefaultConcurrentVectorTraits (inline table, kAsNeeded, fast iterator)',
+              'B': 'TestTraitsB (inline table, kFullBufferAhead, fast iterator)',
+              'C': 'heap table, kAsNeeded, fast iterator'}
+
+
+def hist(tr, gname, mask, prefix, maxn, tiers, ops=1, mask1=None, timeout=600):
+    defs = {'VF_TRAITS': TRAITS[tr], 'VF_OPS': ops, 'VF_PREFIX': prefix, 'VF_MAXN': maxn, 'VF_WCONST': 2, 'VF_PROBE': 1,
+            'VF_MASK0': hex(mask)}
+    if mask1 is not None:
+        defs['VF_MASK1'] = hex(mask1)
+    return {'name': 'hist_%s_%s_p%d%s' % (tr, gname, prefix, '' if ops == 1 else '_x%d' % ops), 'src': 'history.cpp',
+            'engine': 'cbmc', 'defs': defs, 'unwind': maxn + 2, 'timeout': timeout, 'tiers': tiers,
+            'bounds': ('%s; first bucket 1 element; concrete prefix of %d emplace_back calls, then %d symbolic operation(s) of kind group '
+                       '"%s" with symbolic positions/counts/values; second vector of 2 elements (first bucket 2); size <= %d; '
+                       'final walk with both iterator directions, random access and comparisons') % (
+                           TRAIT_TEXT[tr], prefix, ops, gname, maxn)}
+
+
+INSTANCES = [
+    {'name': 'kernel', 'src': 'kernel.cpp', 'engine': 'cbmc', 'unwind': 8, 'timeout': 600,
+     'bounds': 'none for the mapping: every index < 2^63, every first-bucket shift 0..62 (bit-vector semantics); '
+               'documented-maximum check for the default size traits of a 4-byte element'},
+]
+# quick: compact-iterator traits A, every kind group from a 3-element prefix
+for g, m in GROUPS:
+    INSTANCES.append(hist('A', g, m, 3, 4, ['quick', 'thorough']))
+# thorough: other prefixes / traits
+for g, m in GROUPS:
+    INSTANCES.append(hist('A', g, m, 0, 4, ['thorough']))
+    INSTANCES.append(hist('A', g, m, 2, 4, ['thorough']))
+    INSTANCES.append(hist('D', g, m, 3, 4, ['thorough']))
